@@ -681,7 +681,8 @@ Definition case_cli_xml : R bytes :=
        ++ str ";parse=" ++ (match parsed with Some _ => str "ok" | None => str "malformed" end)
        ++ str ";faithful=" ++ (match parsed with
                                | Some t => if xequiv 64 t expected_tree then str "yes" else str "no"
-                               | None => str "no" end)).
+                               | None => str "no" end)
+       ++ str ";conforms=" ++ (if xml_conforms actual v then str "yes" else str "no")).
 
 Definition run_case_R : R bytes :=
   let* fam := rd_u8 in
